@@ -69,7 +69,7 @@ def _create_merge_candidates(merge_expr: exp.Merge) -> exp.Expression:
                 # from this specific WHEN into a subquery, we use to target rows.
                 # Eg. MERGE INTO t1 USING t2 ON t1.t1Key = t2.t2Key
                 #       WHEN MATCHED AND t2.marked = 1 THEN DELETE
-                predicate = exp.And(this=predicate, expression=condition)
+                predicate = exp.And(this=_paren(predicate), expression=_paren(condition))
 
             if isinstance(then, exp.Update):
                 case_when_clauses.append(f"WHEN {predicate} THEN {w_idx}")
@@ -83,7 +83,7 @@ def _create_merge_candidates(merge_expr: exp.Merge) -> exp.Expression:
             assert isinstance(then, exp.Insert), f"Expected 'Insert', got {then}"
             insert_values = then.expression.expressions
             values.update([str(c) for c in insert_values if isinstance(c, exp.Column)])
-            predicate = f"AND {condition}" if condition else ""
+            predicate = f"AND {_paren(condition)}" if condition else ""
             case_when_clauses.append(f"WHEN {_alias_or_name(target_tbl)}.rowid is NULL {predicate} THEN {w_idx}")
 
     sql = f"""
@@ -100,6 +100,11 @@ def _create_merge_candidates(merge_expr: exp.Merge) -> exp.Expression:
     """
 
     return sqlglot.parse_one(sql)
+
+
+def _paren(e: exp.Expression) -> exp.Expression:
+    # an OR keeps its operands together when it's combined with AND
+    return exp.paren(e.copy()) if isinstance(e, exp.Or) else e
 
 
 def _mutations(merge_expr: exp.Merge) -> list[exp.Expression]:
@@ -131,7 +136,7 @@ def _mutations(merge_expr: exp.Merge) -> list[exp.Expression]:
                 delete_sql = f"""
                     DELETE FROM {target_tbl}
                     USING merge_candidates AS {source_tbl}
-                    WHERE {join_expr}
+                    WHERE {_paren(join_expr)}
                     AND {source_tbl}.merge_op = {w_idx}
                 """
                 statements.append(sqlglot.parse_one(delete_sql))
@@ -145,7 +150,7 @@ def _mutations(merge_expr: exp.Merge) -> list[exp.Expression]:
                     UPDATE {target_tbl}
                     SET {set_clauses}
                     FROM merge_candidates AS {source_tbl}
-                    WHERE {join_expr}
+                    WHERE {_paren(join_expr)}
                     AND {source_tbl}.merge_op = {w_idx}
                 """
                 statements.append(sqlglot.parse_one(update_sql))
